@@ -4,10 +4,15 @@
     Two kinds of theorem (DESIGN §8 C19):
     (1) certificate checkers are sound for ALL graphs: [c = true -> specification];
         the check runs the real algorithms and feeds their outputs to these checkers;
-    (2) model algorithms (closure/BFS reachability, Kahn, Bellman-Ford as transcribed) meet them. *)
-From Coq Require Export ZArith List Bool Permutation.
-From GV Require Export Algo.Spec Algo.Cert Algo.Model Algo.Run.
-From GV Require Import Algo.ProofsBase Algo.ProofsPath Algo.ProofsMsf Algo.ProofsFlow Algo.ProofsModel Algo.ProofsDijkstra.
+    (2) model algorithms (closure/BFS reachability, Bellman-Ford, Dijkstra, Kruskal, PageRank as
+        transcribed) meet them;
+    (3) executable specifications of the structure algorithms (triangles, k-core, bridges,
+        articulation points) and of "PageRank is a distribution" are sound: the check evaluates
+        them in Coq on the implementation's outputs. *)
+From Coq Require Export ZArith List Bool Permutation QArith Qabs.
+From GV Require Export Algo.Spec Algo.Cert Algo.CertStruct Algo.Model Algo.ModelPr Algo.Run.
+From GV Require Import Algo.ProofsBase Algo.ProofsPath Algo.ProofsMsf Algo.ProofsFlow Algo.ProofsModel Algo.ProofsDijkstra
+  Algo.ProofsStruct Algo.ProofsPr Algo.ProofsPrModel.
 Import ListNotations.
 Open Scope Z_scope.
 
@@ -124,6 +129,61 @@ Theorem flow_cert_sound : forall g s t fl val, flow_cert g s t fl val = true -> 
 Proof. exact flow_cert_sound_l. Qed.
 Print Assumptions flow_cert_sound.
 
+(** ** structure algorithms: executable specifications evaluated on the implementation's outputs *)
+(** a count is determined by the predicate it counts (so the specifications below fix the numbers) *)
+Theorem counts_unique : forall (A : Type) (P : A -> Prop) c1 c2, counts P c1 -> counts P c2 -> c1 = c2.
+Proof. exact ProofsStruct.counts_unique. Qed.
+Print Assumptions counts_unique.
+
+Theorem tri_cert_sound : forall g tc total, tri_cert g tc total = true ->
+  (forall v, In v (nodes g) -> exists c, lookup tc v = Some c /\ tri_count_spec g v c) /\ tri_total_spec g total.
+Proof. exact tri_cert_sound_l. Qed.
+Print Assumptions tri_cert_sound.
+
+(** the local clustering coefficient returned (a binary64 bit pattern [x]) is within relative error 2^-53
+    of triangles / (k choose 2) *)
+Theorem lcc_cert_sound : forall g lc, lcc_cert g lc = true ->
+  forall v, In v (nodes g) -> exists x q q0, lookup lc v = Some x /\ f64_val x = Some q /\ lcc_spec g v q0 /\
+    (Qabs (q - q0) <= q0 * (1 # 9007199254740992))%Q.
+Proof. exact lcc_cert_sound_l. Qed.
+Print Assumptions lcc_cert_sound.
+
+Theorem kcore_cert_sound : forall g c maxc, kcore_cert g c maxc = true ->
+  (forall v, In v (nodes g) -> exists k, lookup c v = Some k /\ core_spec g v k /\ k <= maxc) /\
+  (nodes g <> [] -> exists v, In v (nodes g) /\ lookup c v = Some maxc).
+Proof. exact kcore_cert_sound_l. Qed.
+Print Assumptions kcore_cert_sound.
+
+Theorem kcore_list_cert_sound : forall g c k l, kcore_list_cert g c k l = true ->
+  NoDup l /\ forall v, In v l <-> In v (nodes g) /\ exists x, lookup c v = Some x /\ k <= x.
+Proof. exact kcore_list_cert_sound_l. Qed.
+Print Assumptions kcore_list_cert_sound.
+
+Theorem bridges_cert_sound : forall g l, bridges_cert g l = true -> bridges_spec g l.
+Proof. exact bridges_cert_sound_l. Qed.
+Print Assumptions bridges_cert_sound.
+
+Theorem artic_cert_sound : forall g l, artic_cert g l = true -> artic_spec g l.
+Proof. exact artic_cert_sound_l. Qed.
+Print Assumptions artic_cert_sound.
+
+(** ** PageRank *)
+(** accepted scores (binary64 bit patterns) are finite, non-negative and their exact sum is within 10^-9 of 1 *)
+Theorem pr_cert_sound : forall g pr, pr_cert g pr = true ->
+  NoDup (map fst pr) /\ (forall v, In v (map fst pr) <-> In v (nodes g)) /\
+  exists qs, Forall2 (fun b q => f64_val b = Some q) (map snd pr) qs /\
+             (forall x, In x qs -> (0 <= x)%Q) /\
+             (nodes g <> [] -> approx_distribution (1 # 1000000000) qs).
+Proof. exact pr_cert_sound_l. Qed.
+Print Assumptions pr_cert_sound.
+
+(** PageRank as transcribed, over exact rationals: for every graph with a node, every damping factor in
+    [0,1], every tolerance and every iteration bound the scores are a probability distribution *)
+Theorem pagerank_model_distribution : forall g d tol k, wf g -> nodes g <> [] -> (0 <= d <= 1)%Q ->
+  map fst (pagerank_model g d tol k) = nodes g /\ distribution (map snd (pagerank_model g d tol k)).
+Proof. intros g d tol k Hwf Hne Hd. apply (pagerank_model_distribution_l g d tol Hwf Hne Hd k). Qed.
+Print Assumptions pagerank_model_distribution.
+
 (** ** model algorithms *)
 (** closure/BFS reachability with |nodes| rounds visits exactly the reachable set *)
 Theorem reach_model_correct : forall g s, wf g -> In s (nodes g) -> forall v, In v (reach_model g s) <-> reachable g s v.
@@ -201,6 +261,32 @@ Qed.
 Definition ex_net : graph := mkG [0; 1; 2; 3] [mkE 0 1 0 2; mkE 0 2 1 2; mkE 1 3 2 1; mkE 2 3 3 2; mkE 1 2 4 1; mkE 1 2 5 1].
 Example nv_flow : flow_cert ex_net 0 3 [(0, 1, 2); (0, 2, 1); (1, 3, 1); (1, 2, 1); (2, 3, 2)] 3 = true
                   /\ flow_cert ex_net 0 3 [(0, 1, 1); (1, 3, 1)] 1 = false.
+Proof. vm_compute. repeat split. Qed.
+(** structure: K4 (0..3) with a doubled edge 2-3, a self-loop at 0 and a pendant node 4 hanging off 3 *)
+Definition ex_s : graph := mkG [0; 1; 2; 3; 4]
+  [mkE 0 1 0 1; mkE 0 2 1 1; mkE 0 3 2 1; mkE 1 2 3 1; mkE 1 3 4 1; mkE 2 3 5 1; mkE 3 2 6 1; mkE 0 0 7 1; mkE 3 4 8 1].
+Example nv_struct : tri_cert ex_s [(0, 3); (1, 3); (2, 3); (3, 3); (4, 0)] 4 = true
+                    /\ tri_cert ex_s [(0, 6); (1, 3); (2, 3); (3, 3); (4, 0)] 4 = false
+                    /\ kcore_cert ex_s [(0, 4); (1, 3); (2, 3); (3, 3); (4, 1)] 4 = false
+                    /\ kcore_cert ex_s [(0, 3); (1, 3); (2, 3); (3, 3); (4, 1)] 3 = true
+                    /\ bridges_cert ex_s [(3, 4)] = true /\ bridges_cert ex_s [] = false /\ bridges_cert ex_s [(3, 4); (2, 3)] = false
+                    /\ artic_cert ex_s [3] = true /\ artic_cert ex_s [] = false /\ artic_cert ex_s [3; 0] = false.
+Proof. vm_compute. repeat split. Qed.
+(** the answers of the code before the repairs are rejected: k-core {1,0} on a single edge (b5e4c37), a triangle
+    counted at a self-loop (7e4dbc2), dfs_all listing a node twice (872b230), Prim missing the edge into its start (9e690b3) *)
+Example nv_pre_outputs : kcore_cert (mkG [0; 1] [mkE 0 1 0 1]) [(0, 1); (1, 0)] 1 = false
+                         /\ kcore_cert (mkG [0; 1] [mkE 0 1 0 1]) [(0, 1); (1, 1)] 1 = true
+                         /\ tri_cert (mkG [0; 1] [mkE 0 0 0 1; mkE 1 0 1 1]) [(0, 1); (1, 0)] 0 = false
+                         /\ tri_cert (mkG [0; 1] [mkE 0 0 0 1; mkE 1 0 1 1]) [(0, 0); (1, 0)] 0 = true
+                         /\ perm_cert (mkG [0; 1] [mkE 1 0 0 1]) [0; 0; 1] = false
+                         /\ perm_cert (mkG [0; 1] [mkE 1 0 0 1]) [0; 1] = true
+                         /\ prim_cert (mkG [0; 1] [mkE 0 1 0 3]) 1 [] = false
+                         /\ prim_cert (mkG [0; 1] [mkE 0 1 0 3]) 1 [mkE 0 1 0 3] = true.
+Proof. vm_compute. repeat split. Qed.
+(** PageRank: 0.5 + 0.5 is accepted, 0.5 + 0.25 is not; the model on a 2-cycle with a dangling third node *)
+Example nv_pagerank : pr_cert (mkG [0; 1] []) [(0, 4602678819172646912); (1, 4602678819172646912)] = true
+                      /\ pr_cert (mkG [0; 1] []) [(0, 4602678819172646912); (1, 4598175219545276416)] = false
+                      /\ map snd (pagerank_model (mkG [0; 1; 2] [mkE 0 1 0 1; mkE 1 0 1 1]) (1 # 2) 0 2) = [(3 # 8)%Q; (3 # 8)%Q; (1 # 4)%Q].
 Proof. vm_compute. repeat split. Qed.
 Example nv_wf : wf ex_g /\ wf ex_net /\ wf ex_neg.
 Proof. split; [|split]; apply wfb_wf; vm_compute; reflexivity. Qed.
